@@ -389,7 +389,7 @@ func Generate(seed int64, index int, tier string) *Scenario {
 	}
 	// foreign plan
 	fo := b.r.IntN(nOrders)
-	all := []string{"queue", "markUnschedulable", "schedulingBackoff", "nodePoolSet", "nodePoolRemove", "status"}
+	all := []string{"queue", "markUnschedulable", "schedulingBackoff", "nodePoolSet", "nodePoolRemove", "status", "annotation", "annotation"}
 	var fields []string
 	for _, f := range all {
 		if b.p(0.45) {
